@@ -33,6 +33,7 @@ PLACEMENTS = ["sibling", "nested", "absolute", "symlink", "dotdot", "inside_src"
 TWO_PATH = ("os.rename", "shutil.move", "shutil.copyfile", "shutil.copytree", "os.symlink", "os.link", "shutil.copymode", "shutil.copystat")
 SRC_FIRST = ("shutil.copyfile", "shutil.copytree", "os.symlink", "os.link", "shutil.copymode", "shutil.copystat")
 REFUSALS = ["equals_src", "parent_of_src", "grandparent_of_second_src", "symlinked_parent_of_src"]
+BLOCKED = ["file_in_the_way"]  # the output directory cannot be made: the run fails and leaves everything as it was
 
 
 def snapshot(root, exclude):
@@ -68,6 +69,11 @@ def build_sandbox(root, rng, placement, opts_on):
     open(os.path.join(proj, "src", "a.f90"), "w").write("module cmod_a\n!! doc a\ninteger :: va\n!! doc\ncontains\nsubroutine sa()\n!! doc\nend subroutine\nend module cmod_a\n")
     open(os.path.join(proj, "src", "sub", "b.f90"), "w").write("module cmod_b\n!! doc b\nuse cmod_a\ncontains\nsubroutine sb()\n!! doc\ncall sa()\nend subroutine\nend module cmod_b\n")
     open(os.path.join(proj, "src", "p.f90"), "w").write("program cprog\n!! doc\nuse cmod_b\ncall sb()\nend program cprog\n")
+    if opts_on.get("lonely_sources"):
+        # one module without any relation to anything: every graph is trivial (nothing to save)
+        for rel in (("src", "sub", "b.f90"), ("src", "p.f90")):
+            os.remove(os.path.join(proj, *rel))
+        open(os.path.join(proj, "src", "a.f90"), "w").write("module cmod_a\n!! doc a\ninteger :: va\n!! doc\nend module cmod_a\n")
     os.makedirs(os.path.join(root, "bystander"))
     open(os.path.join(root, "bystander", "keep.txt"), "w").write("keep me\n")
     open(os.path.join(proj, "keep.dat"), "w").write("data\n")
@@ -174,6 +180,12 @@ def build_sandbox(root, rng, placement, opts_on):
         open(os.path.join(out, ".nojekyll"), "w").write("")
         opts["output_dir"] = "./doc"
         allowed.append(out)
+    elif placement == "file_in_the_way":
+        # a regular file stands where a parent directory of the output directory would have to be
+        open(os.path.join(proj, "build"), "w").write("#!/bin/sh\necho the user's build script\n")
+        os.chmod(os.path.join(proj, "build"), 0o755)
+        opts["output_dir"] = "./build/doc"
+        allowed.append(os.path.join(proj, "build", "doc"))
     elif placement == "equals_src":
         opts["output_dir"] = "./src"
         refusal = True
@@ -210,6 +222,11 @@ def build_sandbox(root, rng, placement, opts_on):
             allowed.append(os.path.join(proj, "graphs"))
         elif g == "in_output" and not refusal:
             opts["graph_dir"] = os.path.join(opts["output_dir"], "graphs") if not os.path.isabs(opts["output_dir"]) else os.path.join(opts["output_dir"], "graphs")
+        elif g == "under_empty_parent":
+            # the directory above the graph directory exists and is empty (made by the user's build system): it stays, whatever FORD saves
+            os.makedirs(os.path.join(root, "gbuild"))
+            opts["graph_dir"] = "../gbuild/graphs"
+            allowed.append(os.path.join(root, "gbuild", "graphs"))
         elif g == "absolute":
             opts["graph_dir"] = os.path.join(root, "abs_graphs")
             allowed.append(os.path.join(root, "abs_graphs"))
@@ -299,7 +316,8 @@ def case(arg):
         opts_on["outside_subpage"] = rng.random() < 0.3
         opts_on["quiet"] = rng.random() < 0.4
         opts_on["bad_preprocessor"] = mode == "plain" and rng.random() < 0.3
-        opts_on["graph_dir"] = [None, "sibling", "in_output", "absolute", "contains_sources"][seed % 5]
+        opts_on["graph_dir"] = [None, "sibling", "in_output", "absolute", "contains_sources", "under_empty_parent"][seed % 6]
+        opts_on["lonely_sources"] = rng.random() < (0.6 if opts_on["graph_dir"] == "under_empty_parent" else 0.15)
         if opts_on["graph_dir"] and rng.random() < 0.8:
             opts_on["graph"] = True
         cwd = rng.choice([os.path.join(root, "proj"), os.path.join(root, "work")])
@@ -371,7 +389,7 @@ def case(arg):
             if rc == 0 or inside:
                 viol.append({"kf": {"kind": "source_inside_output_not_refused_first", "ran_to_completion": rc == 0, **cfg},
                              "w": {"seed": seed, "rc": rc, "events_in_sandbox": inside[:5], "options": opts, "output_tail": out[-500:]}})
-        elif mode == "plain" and rc != 0 and not opts_on.get("bad_preprocessor"):
+        elif mode == "plain" and rc != 0 and not opts_on.get("bad_preprocessor") and placement not in BLOCKED:
             # not a confinement violation, but the case did not exercise the write-out as intended
             return {"viol": viol, "inconclusive": "run without injected fault exited %r: %s" % (rc, out[-300:].replace("\n", " | ")), "cfg": cfg, "nmut": nmut, "key": "", "sample": None, "injected": 0}
         # strace: writes by any child process
@@ -428,7 +446,7 @@ def main():
     base = run.seed * 100003
     i = 0
     for rep in range(6 if thorough else 2):
-        for pl in PLACEMENTS + REFUSALS:
+        for pl in PLACEMENTS + REFUSALS + BLOCKED + BLOCKED:
             i += 1
             args.append((base + i, pl, "plain"))
     # failpoints: find the number of events on a reference run, then inject at k
